@@ -13,6 +13,7 @@ write-back, and "change only the addressed component" is the explicit result of 
 matching constructor together with the lens laws.
 -/
 import LC.Model.Term
+import LC.Model.Display
 
 namespace LC
 open Term
@@ -164,5 +165,17 @@ example : lhs (app (var 1) (var 2)) = .ok (var 1) ∧ rhs (app (var 1) (var 2)) 
 example : lhsMutPut (app (var 1) (var 2)) (var 7) = .ok (app (var 7) (var 2)) := rfl
 example : rhsMutPut (app (var 1) (var 2)) (var 7) = .ok (app (var 1) (var 7)) := rfl
 example : lhs (abs (var 1)) = .error .NotApp := rfl
+
+/-! ### the error messages (string tables of `impl Display for TermError`; tied by the `errmsg` ops) -/
+
+/-- the three `TermError` messages are pairwise different, so the message identifies the error -/
+theorem C19_error_messages_distinct :
+    Display.termErrorMsg .NotVar ≠ Display.termErrorMsg .NotAbs ∧
+    Display.termErrorMsg .NotVar ≠ Display.termErrorMsg .NotApp ∧
+    Display.termErrorMsg .NotAbs ≠ Display.termErrorMsg .NotApp := by decide
+
+/-- `Display for Order` is injective: the seven order names are pairwise different -/
+theorem C19_order_names_injective (o₁ o₂ : Order) (h : Display.orderName o₁ = Display.orderName o₂) : o₁ = o₂ := by
+  cases o₁ <;> cases o₂ <;> first | rfl | (exfalso; revert h; decide)
 
 end LC
